@@ -6,7 +6,7 @@
 (* action is the caller's contract; the result predicate is the promise.   *)
 (* Properties C01, C06, C07, C12, C13 are statements about this module.    *)
 (***************************************************************************)
-EXTENDS Integers, Sequences, FiniteSets
+EXTENDS Integers, Sequences, FiniteSets, FiniteSetsExt      \* FiniteSetsExt: linear-time Max / Min of a set
 
 VARIABLES ents,      \* set of [k, e, v]: key, expiration, value
           now        \* last time supplied since the last clear
@@ -14,8 +14,9 @@ VARIABLES ents,      \* set of [k, e, v]: key, expiration, value
 NoVal == -999999     \* "None"
 
 LiveAt(S, t) == {x \in S : x.e > t}            \* strict: visible at t iff e > t
-MaxKey(S) == CHOOSE x \in S : \A y \in S : y.k <= x.k
-MinKey(S) == CHOOSE x \in S : \A y \in S : x.k <= y.k
+\* the entry with the greatest / least key (live keys are distinct, so it is unique where it matters)
+MaxKey(S) == LET mk == Max({x.k : x \in S}) IN CHOOSE x \in S : x.k = mk
+MinKey(S) == LET mk == Min({x.k : x \in S}) IN CHOOSE x \in S : x.k = mk
 
 \* ---- contract ------------------------------------------------------------
 CanInsert(k, e, t) == t >= now /\ e >= t /\ ~\E x \in LiveAt(ents, t) : x.k = k
